@@ -42,7 +42,7 @@ func (c20) Assumptions() []string {
 	}
 }
 func (c20) Required(tier string) []string {
-	return []string{"shape-big-then-small-siblings", "shape-escapes-every-level", "shape-deep", "shape-escaped-children", "shape-large-tree", "history-large-then-many-small", "history-failing-small-docs", "A-abort", "P-evict", "doc>=100KB", "reused-buffer", "reused-reader"}
+	return []string{"shape-big-then-small-siblings", "shape-escapes-every-level", "shape-deep", "shape-escaped-children", "shape-large-tree", "history-large-then-many-small", "history-failing-small-docs", "A-abort", "P-evict", "doc>=100KB", "reused-buffer", "reused-reader", "history-deep-then-tiny-on-one-buffer"}
 }
 
 func repeatStr(s string, n int) []byte { return bytes.Repeat([]byte(s), n) }
@@ -181,7 +181,27 @@ func (c20) Gen(r *Rand, sc *Scenario, tier string) {
 	if tier == "thorough" || r.Chance(1, 3) {
 		maxSize = 400000
 	}
-	switch r.Pick(5, 4, 2) {
+	switch r.Pick(5, 4, 2, 2) {
+	case 3: // one deep document on a Buffer, then many tiny validations / traversals with the same Buffer
+		first := c20Walkers[r.Intn(len(c20Walkers))]
+		mix := r.Intn(3)
+		if first == "HandleObjectValues" {
+			mix = 1
+		} else if first == "HandleArrayValues" && mix == 1 {
+			mix = 0
+		}
+		dd := deepDoc(mix, []int{2000, 9000, 9999}[r.Intn(3)], "1")
+		dd.Class = "shape-deep"
+		sc.Docs = append(sc.Docs, dd)
+		ops = append(ops, Op{Kind: first, Doc: 0, A: 1, B: 0, C: 1})
+		m := []int{50, 2000, 8000}[r.Intn(3)]
+		tiny := [][]byte{[]byte(`[1]`), []byte(`{"a":1}`), []byte(`[[1],[2]]`), []byte(`{"a":{"b":1}}`), []byte(`[]`), []byte(`[1,`)}
+		nk := r.Range(1, 3)
+		for k := 0; k < nk; k++ {
+			sc.Docs = append(sc.Docs, docOf(tiny[r.Intn(len(tiny))], "small-after-large"))
+			ops = append(ops, Op{Kind: c20Walkers[r.Intn(len(c20Walkers))], Doc: len(sc.Docs) - 1, A: 1, B: r.Intn(2), C: m})
+		}
+		sc.Cfg["deep-then-tiny-on-one-buffer"] = 1
 	case 0: // one shape at growing sizes
 		shape := r.Intn(8)
 		kind := pickKind()
@@ -294,6 +314,9 @@ func (c20) Exec(sc *Scenario, st *Stats) *Violation {
 		}
 		if reps > 1 {
 			st.probe("history-large-then-many-small")
+			if sc.cfg("deep-then-tiny-on-one-buffer") == 1 {
+				st.probe("history-deep-then-tiny-on-one-buffer")
+			}
 		}
 		ok := false
 		call := func() {
